@@ -330,3 +330,8 @@ def run(ctx):
     round4.share(ctx, "R4.7", "C05", lambda i_: i_["rule"] == "R5.1" and i_["inst"].split(":")[0] in
                  ("execute", "end", "pause", "resume", "cool", "warm"), "recount-after:",
                  "a resume that puts a second running thread on a physical CPU is accepted", 6)
+    ctx.rule("R4.8", "a documented transition is refused only by the layers below: with every call out of ovni/event.c "
+             "succeeding, pre_thread accepts every documented (event, state) cell on every path whatever else the CPU "
+             "holds (nothing, paused, cooling or warming threads; other running threads on the virtual CPU)")
+    from rules import round8
+    round8.check_lifecycle_accepts_whatever_the_cpu_holds(ctx, "R4.8")
